@@ -182,8 +182,8 @@ Definition abort_clause (p : snap) (c : cmd) : bool :=
   end.
 
 (* ---- clause: frame and fence ownership ---------------------------------------------------------
-   an accepted batch changes only the task rows its commands name (GC: removes terminal rows
-   only), only the metas its commands name, and a write fence only if it is free or held by
+   an accepted batch changes only the task rows its commands name (GC: removes rows that were
+   terminal, or that another command of the batch named), only the metas its commands name, and a write fence only if it is free or held by
    a task id one of its commands names; afterwards it is free or held by such an id *)
 
 Definition fence_eqb (a b : runtime_meta) : bool :=
@@ -208,7 +208,8 @@ Definition tasks_frame (okc : list cmd) (p c : snap) : bool :=
   (* rows that disappeared *)
   && forallb (fun t0 => match snap_task c (task_key t0) with
                         | Some _ => true
-                        | None => isTerminal t0 && existsb is_gc okc
+                        | None => existsb is_gc okc
+                                  && (isTerminal t0 || existsb (fun x => cmd_targets x (task_key t0)) okc)
                         end) (s_tasks p).
 
 Definition metas_frame (okc : list cmd) (p c : snap) : bool :=
@@ -226,20 +227,19 @@ Definition metas_frame (okc : list cmd) (p c : snap) : bool :=
     | Some _, None => false
     end) (s_metas c).
 
-(* ---- clause: every stored meta is valid; migration commands keep MinISR and never shrink the ISR -- *)
+(* ---- clause: a meta row changed by migration commands is valid (leader in ISR, ISR within
+        replicas, 1 <= MinISR <= |replicas|, consistent fence fields); they keep MinISR and
+        never shrink the ISR.  (Rows written by runtime-meta upserts are C15's.) ---------------- *)
 
 Definition metas_valid (okc : list cmd) (p c : snap) : bool :=
   forallb (fun cv =>
-    match snd cv with
-    | None => true
-    | Some m1 =>
-      validateChannelRuntimeMeta m1
-      && match snap_meta p (fst cv) with
-         | Some m0 =>
-           existsb is_upsert okc
-           || ((rm_min_isr m0 =? rm_min_isr m1)%Z && (length (rm_isr m0) <=? length (rm_isr m1))%nat)
-         | None => true
-         end
+    match snd cv, snap_meta p (fst cv) with
+    | Some m1, Some m0 =>
+      runtime_meta_eqb m0 m1
+      || existsb is_upsert okc
+      || (validateChannelRuntimeMeta m1
+          && (rm_min_isr m0 =? rm_min_isr m1)%Z && (length (rm_isr m0) <=? length (rm_isr m1))%nat)
+    | _, _ => true
     end) (s_metas c).
 
 (* ---- clause: at most one active task per channel, and the active index points at it ------------- *)
@@ -352,7 +352,9 @@ Definition all_stale (r : bres) : bool :=
 
 Definition b2c (b : bool) : N := if b then 0 else 1.
 
-Definition mon_step (st : mstate) (cs : list cmd) (o : obs) : N * mstate :=
+(* the codes of the seven clauses of one step: rejected-changes-nothing, commit/promote proof,
+   abort per command, frame + fence ownership, meta validity, single active task, temporal abort *)
+Definition mon_step_codes (st : mstate) (cs : list cmd) (o : obs) : list N * mstate :=
   let p := ms_prev st in
   let c := snap_of o in
   let r := o_res o in
@@ -368,8 +370,18 @@ Definition mon_step (st : mstate) (cs : list cmd) (o : obs) : N * mstate :=
   let c_valid := b2c (metas_valid okc p c) in
   let '(c_single, taint) := single_active_step cs okc p c (ms_taint st) in
   let '(c_temporal, ms) := marks_step okc p c (ms_marks st) in
-  let code := fold_left combine [c_rejected; c_commit; c_abort; c_frame; c_valid; c_single; c_temporal] 0 in
-  (code, MState c ms taint).
+  ([c_rejected; c_commit; c_abort; c_frame; c_valid; c_single; c_temporal], MState c ms taint).
+
+Definition mon_step (st : mstate) (cs : list cmd) (o : obs) : N * mstate :=
+  let '(codes, st') := mon_step_codes st cs o in (fold_left combine codes 0, st').
+
+(* per-step clause codes of a whole case (diagnostics for replay files) *)
+Fixpoint mon_trace (st : mstate) (steps : list (list cmd * obs)) : list (list N) :=
+  match steps with
+  | [] => []
+  | (cs, o) :: r => let '(codes, st') := mon_step_codes st cs o in codes :: mon_trace st' r
+  end.
+Definition C17_monitor_trace (c : c17_case) : list (list N) := mon_trace mstate_init (c_steps c).
 
 Fixpoint mon_run (st : mstate) (steps : list (list cmd * obs)) (acc : N) : N :=
   match steps with
